@@ -114,7 +114,7 @@ class ToolboxTask:
             return
         if isinstance(r1, Exception):
             return
-        if entry.fname in TB.INPLACE_RECEIVER:
+        if entry.fname in TB.INPLACE_RECEIVER or entry.name in TB.NOT_REPEATABLE:
             return          # documented in-place operation on the receiver: repeating it is a different request
         if disturb is not None:
             disturb()               # an unrelated call on the same (stateless) object in between
@@ -150,7 +150,7 @@ class Check:
         'the registry is built by introspection and bound by (module, parameter name); callables that could not be bound or were never reached are listed by name in the evidence (coverage.stats.unbound / never_reached), not counted as covered',
         'a callable that rejects the generated arguments (any exception) is counted as rejected, not judged',
         'documented in-place methods (Quaternion.normalize, QuaternionArray.remove_jumps, slerp_nan) may change their receiver; inplace=True options are not exercised',
-        'repeatability is judged with the NumPy global RNG state restored between the two calls',
+        'repeatability is judged with the NumPy global RNG state restored between the two calls; ahrs.Sensors draws its noise from a module-level generator and is judged for argument mutation only',
     ]
     components = {
         'real': ['public functions of ahrs.common.orientation / frames / mathfuncs, ahrs.utils.metrics, ahrs.common.quaternion; methods, properties and constructors of Quaternion, QuaternionArray, DCM; constructors and per-sample methods of every filter class'],
